@@ -239,7 +239,7 @@ fn run_conc(cfg: &ConcCfg, rng: &mut Rng, sid: u64) -> ConcOutcome {
             Ok(()) => {}
             Err(st) => {
                 if st.is_verdict() {
-                    viol.push(V { props: vec!["C09"], rule: "R4", class: "undelivered-after-last-drop".into(), detail: format!("{} accepted, {} delivered: {}", total, sh.count(|e| matches!(e, Ev::Exit { .. })), st.describe()) });
+                    viol.push(V { props: vec!["C09", "C08"], rule: "R4", class: "undelivered-after-last-drop".into(), detail: format!("{} accepted, {} delivered: {}", total, sh.count(|e| matches!(e, Ev::Exit { .. })), st.describe()) });
                 } else {
                     inconclusive = Some(st.describe());
                 }
@@ -711,7 +711,10 @@ fn window_scenarios(rep: &mut Report, prop: &str, args: &Args, rounds: u64) {
                 ("C3:dropper parked before setting the stop flag, worker idle", None, Some("queuing.stop.enter"), false),
                 ("C4:dropper parked after setting the stop flag, worker busy with work queued", None, Some("queuing.stop.flagged"), true),
                 ("C5:worker about to wait after finishing the last entry; dropper parked after setting the flag", Some("queuing.run.wait"), Some("queuing.stop.flagged"), true),
+                ("C6:worker checked the stop flag and is about to wait; entries are queued; then the last handle is dropped", Some("queuing.run.wait"), None, false),
+                ("C7:as C6, with the dropper parked after setting the stop flag", Some("queuing.run.wait"), Some("queuing.stop.flagged"), false),
             ] {
+                let queue_behind_parked_worker = wname.starts_with("C6") || wname.starts_with("C7");
                 let sh = Shared::new(busy);
                 set_current(Some(sh.clone()));
                 let mut b = QueuingMetricSink::builder();
@@ -749,6 +752,15 @@ fn window_scenarios(rep: &mut Report, prop: &str, args: &Args, rounds: u64) {
                     if !await_parked(wp, max) {
                         rep.inconclusive(format!("{}: the worker never reached {}", wname, wp));
                         disarm_all();
+                    } else if queue_behind_parked_worker {
+                        // the worker has seen "not stopping" and has not started waiting: queue work behind its back
+                        let n = cap.unwrap_or(3).min(4);
+                        for k in 0..n {
+                            if q.emit(&format!("w{}.late{}|ok", round, k)).is_ok() {
+                                accepted += 1;
+                            }
+                        }
+                        rep.obs("entries_queued_behind_parked_worker", n as u64);
                     }
                 }
                 if let Some(dp) = dropper_point {
@@ -794,7 +806,7 @@ fn window_scenarios(rep: &mut Report, prop: &str, args: &Args, rounds: u64) {
                         report(
                             rep,
                             V {
-                                props: vec!["C09"],
+                                props: if delivered < accepted { vec!["C09", "C08"] } else { vec!["C09"] },
                                 rule: "R4",
                                 class: if delivered < accepted { "undelivered-after-last-drop".into() } else { "worker-or-sink-not-released".into() },
                                 detail: format!("{} accepted, {} delivered, sink dropped: {}; {}", accepted, delivered, sh.count(|e| matches!(e, Ev::SinkDrop { .. })) > 0, st.describe()),
@@ -987,6 +999,100 @@ fn blocked_case(rep: &mut Report, prop: &str, args: &Args, cs: u64) {
     }
 }
 
+
+// ------------------------------------------------------------------------------------------------
+// the last N handles are dropped at the same moment on N threads (C09)
+// ------------------------------------------------------------------------------------------------
+
+fn droprace_case(rep: &mut Report, prop: &str, args: &Args, cs: u64) {
+    let mut rng = Rng::new(cs);
+    let cap = match rng.below(4) {
+        0 => None,
+        1 => Some(1usize),
+        _ => Some(rng.range(2, 8) as usize),
+    };
+    let n = *rng.pick(&[2usize, 2, 2, 3, 4]);
+    let queued = rng.below(4) as usize;
+    rep.eval();
+    let sh = Shared::new(false);
+    set_current(None);
+    let q = match cap {
+        Some(c) => QueuingMetricSink::with_capacity(GatedSink { sh: sh.clone() }, c),
+        None => QueuingMetricSink::from(GatedSink { sh: sh.clone() }),
+    };
+    let mut accepted = 0usize;
+    for k in 0..queued {
+        if q.emit(&format!("d.n{}|{}", k, if k == 1 { "panic" } else { "ok" })).is_ok() {
+            accepted += 1;
+        }
+    }
+    // n handles in total, each moved to its own thread; a spin barrier makes the drops overlap
+    let go = Arc::new(AtomicU64::new(0));
+    let mut handles: Vec<QueuingMetricSink> = (1..n).map(|_| q.clone()).collect();
+    handles.push(q);
+    let mut joins = Vec::new();
+    for h in handles {
+        let go = go.clone();
+        joins.push(std::thread::spawn(move || {
+            procmon::register_current();
+            go.fetch_add(1, Ordering::SeqCst);
+            while go.load(Ordering::SeqCst) < n as u64 {
+                std::hint::spin_loop();
+            }
+            panics::guard(move || drop(h))
+        }));
+    }
+    let mut drop_panicked = None;
+    for j in joins {
+        if let Ok(Err(p)) = j.join() {
+            drop_panicked = Some(p);
+        }
+    }
+    rep.obs("concurrent_last_drop_races", 1);
+    rep.distinct(&format!("droprace|{:?}|n{}|q{}", cap, n, queued));
+    let cfg = jobj! {"capacity" => format!("{:?}", cap), "handles_dropped_concurrently" => n, "queued_before" => queued};
+    let mut report = |rep: &mut Report, props: &[&str], class: &str, detail: String| {
+        for p in props {
+            if *p == prop {
+                rep.violation(Violation {
+                    property: p.to_string(),
+                    rule: "R4".into(),
+                    class: class.into(),
+                    detail: format!("[concurrent last drops {}] {}", cfg.to_string(), detail),
+                    replay_args: args.to_vec_with(&[("case-seed", cs.to_string()), ("cases", "1".into())]),
+                    trace: jobj! {"config" => cfg.clone(), "event_log" => log_json(&sh.log(), 100)},
+                });
+            } else {
+                rep.obs("other_property_rule_hits", 1);
+            }
+        }
+    };
+    if let Some(p) = drop_panicked {
+        report(rep, &["C09"], "drop-panicked", p);
+    }
+    let r = await_log(&sh, |st| st.log.iter().filter(|e| matches!(e, Ev::Exit { .. })).count() >= accepted);
+    match r {
+        Err(st) if st.is_verdict() => {
+            report(rep, &["C09", "C08"], "undelivered-after-last-drop", format!("{} accepted, {} delivered: {}", accepted, sh.count(|e| matches!(e, Ev::Exit { .. })), st.describe()));
+            adopt_zombies();
+            return;
+        }
+        Err(st) => {
+            rep.inconclusive(st.describe());
+            return;
+        }
+        Ok(()) => {}
+    }
+    if let Err(st) = await_log(&sh, |st| st.log.iter().any(|e| matches!(e, Ev::SinkDrop { .. }))).and_then(|_| await_no_library_thread()) {
+        if st.is_verdict() {
+            report(rep, &["C09"], "worker-or-sink-not-released", format!("after all {} handles were dropped at the same moment: {}", n, st.describe()));
+            adopt_zombies();
+        } else {
+            rep.inconclusive(st.describe());
+        }
+    }
+}
+
 fn main() {
     let args = Args::from_env();
     panics::install_hook();
@@ -999,6 +1105,16 @@ fn main() {
     let cases = args.u64("cases", 20);
     match mode.as_str() {
         "windows" => window_scenarios(&mut rep, &prop, &args, cases),
+        "droprace" => {
+            let only = args.get("case-seed").map(|s| s.parse::<u64>().unwrap());
+            for i in 0..cases {
+                let cs = only.unwrap_or_else(|| mix(&[seed, 0xD409, shard, i]));
+                droprace_case(&mut rep, &prop, &args, cs);
+                if only.is_some() || rep.violation_count >= 4 || rep.inconclusive.len() >= 3 {
+                    break;
+                }
+            }
+        }
         "blocked" => {
             let only = args.get("case-seed").map(|s| s.parse::<u64>().unwrap());
             for i in 0..cases {
